@@ -159,9 +159,19 @@ func (w *l1World) applyL1(a l1Action) error {
 	case "tx":
 		c := w.clients[a.C]
 		d := c.dts[w.keys[a.Key].Name]
+		ident := func() string {
+			p := d.dt.CreatePushPullPack()
+			meta, _ := d.dt.GetMeta()
+			return fmt.Sprintf("duid=%s option=%d checkpoint=(%d,%d) unpushed=%d meta=%s state=%v view=%s", p.DUID, p.Option, p.CheckPoint.Sseq, p.CheckPoint.Cseq,
+				len(p.Operations), meta, d.dt.GetState(), sim.Observe(d.key.Kind, d.dt, nil))
+		}
+		before := ident()
 		_, txErr, pan := sim.ExecTx(d.key.Kind, d.dt, *a.Tx)
 		if pan != nil {
 			return fmt.Errorf("transaction panicked: %v", pan)
+		}
+		if after := ident(); txErr != nil && after != before {
+			return fmt.Errorf("a failed transaction on client %d changed the datatype:\n  before: %s\n  after:  %s", a.C, before, after)
 		}
 		if txErr != nil {
 			w.labels["failed-transaction"] = true
